@@ -253,6 +253,26 @@ pub struct KnownFindings {
     pub fixed: Vec<String>,
 }
 
+impl KnownFindings {
+    /// Exact key, or a listed key ending in `*` (a call-site level identification: all
+    /// failing inputs that reach the same defect site share the listed prefix).
+    pub fn lookup(&self, prop: &str, key: &str) -> Option<(String, String)> {
+        if let Some(d) = self.known.get(&(prop.to_string(), key.to_string())) {
+            return Some((key.to_string(), d.clone()));
+        }
+        for ((p, k), d) in &self.known {
+            if p == prop {
+                if let Some(prefix) = k.strip_suffix('*') {
+                    if key.starts_with(prefix) {
+                        return Some((k.clone(), d.clone()));
+                    }
+                }
+            }
+        }
+        None
+    }
+}
+
 pub fn load_known_findings() -> KnownFindings {
     let mut kf = KnownFindings::default();
     let path = format!("{VERIF_DIR}/known_findings.txt");
@@ -303,9 +323,9 @@ pub fn finish(ctx: &Ctx, mut rep: Report, rule: &str, assumptions: &[&str], extr
     let _ = std::fs::create_dir_all(&dir);
     let mut printed = 0;
     for (n, v) in rep.violations.iter().enumerate() {
-        if let Some(desc) = kf.known.get(&(id.clone(), v.key.clone())) {
-            if known_hit.insert(v.key.clone()) {
-                println!("KNOWN-FINDING: property={id} key={} {desc}", v.key);
+        if let Some((kkey, desc)) = kf.lookup(id, &v.key) {
+            if known_hit.insert(kkey.clone()) {
+                println!("KNOWN-FINDING: property={id} key={kkey} {desc}");
             }
             continue;
         }
